@@ -242,6 +242,15 @@ Proof.
   rewrite Forall_forall in Ha. exact (Ha b Hb).
 Qed.
 
+Lemma sortedb_impl {B} (h1 h2 : B -> B -> bool) :
+  (forall a b, h1 a b = true -> h2 a b = true) ->
+  forall X, sortedb h1 X = true -> sortedb h2 X = true.
+Proof.
+  intros Hi. induction X as [|x X IH]; cbn; [auto|]. intros H.
+  apply andb_true_iff in H as [H1 H2]. apply andb_true_iff. split; [|auto].
+  rewrite forallb_forall in *. intros y Hy. apply Hi. now apply H1.
+Qed.
+
 Lemma Sx_sorted : sortedb g (map (it_at its) (map fst Sx)) = true.
 Proof.
   replace (map (it_at its) (map fst Sx)) with (map snd Sx).
@@ -251,12 +260,19 @@ Proof.
     destruct (L_spec a Ia) as [_ ->]. reflexivity.
 Qed.
 
+Lemma Sx_calendar : sortedb (cal_ok m rv) (map (it_at its) (map fst Sx)) = true.
+Proof.
+  apply (sortedb_impl g); [|apply Sx_sorted].
+  intros a b. apply (cal_ok_sound m rv its f a b Hpure).
+Qed.
+
 End Case.
 
 (* ---------------------------------------------------------------- soundness of the boolean form *)
-Theorem C13_check_sound_proof c : case_wf c = true -> in_domain c = true -> C13_check c (model c) = true.
+Lemma check0_sound c : case_wf0 c = true -> in_domain0 c = true -> C13_check0 c (model0 c) = true.
 Proof.
-  destruct c as [md its | md its ps | md its perms]; cbn [case_wf in_domain model C13_check];
+  destruct c as [md its | md its ps | md its perms | md bk keys h]; [| | |discriminate];
+    cbn [case_wf0 in_domain0 model0 C13_check0];
     destruct (parse_sort md) as [[m rv]|] eqn:Eps; auto.
   - (* ax *)
     intros Hwf Hdom. destruct (mode_pure m its) as [f|] eqn:Ef; [|discriminate].
@@ -283,8 +299,42 @@ Proof.
       f_equal. exact (model_sort m rv its f Ef Hnd p (Hperms p Hp)). }
     destruct perms as [|p1 perms']; [reflexivity|]. cbn [map].
     rewrite (Hall p1) by now left.
-    rewrite (Sx_is_perm rv its f), (Sx_sorted m rv its f Ef Hnd).
+    rewrite (Sx_is_perm rv its f), (Sx_sorted m rv its f Ef Hnd), (Sx_calendar m rv its f Ef Hnd).
     rewrite !andb_true_r. cbn [forallb]. rewrite list_nat_eqb_refl. cbn [andb].
     apply forallb_forall. intros o Ho. apply in_map_iff in Ho as [p [<- Hp]].
     rewrite (Hall p) by now right. apply list_nat_eqb_refl.
 Qed.
+
+(* collectors over histories reduce to the sort of their final items *)
+Theorem C13_check_sound_proof c : case_wf c = true -> in_domain c = true -> C13_check c (model c) = true.
+Proof.
+  unfold case_wf, in_domain, C13_check, model. intros Hwf Hdom.
+  apply andb_true_iff in Hwf as [Hwf _]. now apply check0_sound.
+Qed.
+
+(* the model's view of a collector depends on the history only through the final totals; these do
+   not depend on the order of arrival nor on intermediate reads *)
+Lemma final_items_ext bk keys h1 h2 : (forall i, total h1 i = total h2 i) ->
+  final_items bk keys h1 = final_items bk keys h2.
+Proof. intros H. unfold final_items. apply map_ext. intros [i k]. cbn. now rewrite H. Qed.
+
+Lemma collect_final_data md bk keys h1 h2 : (forall i, total h1 i = total h2 i) ->
+  model (ICollect md bk keys h1) = model (ICollect md bk keys h2).
+Proof. intros H. unfold model, norm. now rewrite (final_items_ext bk keys h1 h2 H). Qed.
+
+Lemma total_perm h1 h2 : Permutation h1 h2 -> forall i, total h1 i = total h2 i.
+Proof.
+  induction 1 as [|e l l' _ IH|e1 e2 l|l l' l'' _ IH1 _ IH2]; intros i; cbn; auto.
+  - destruct e; rewrite IH; reflexivity.
+  - destruct e1, e2; lia.
+  - now rewrite IH1.
+Qed.
+
+Fixpoint drop_reads (h : list ev) : list ev :=
+  match h with
+  | [] => []
+  | ERead :: r => drop_reads r
+  | e :: r => e :: drop_reads r
+  end.
+Lemma total_drop_reads h i : total (drop_reads h) i = total h i.
+Proof. induction h as [|[k inc|] r IH]; cbn; auto. now rewrite IH. Qed.
